@@ -456,5 +456,5 @@ func c15Gen(g *G) {
 }
 
 func init() {
-	register(&Prop{Name: "c15", Gen: c15Gen, Exec: c15Exec, Judge: c15Judge, OpTimeout: 20 * time.Second})
+	register(&Prop{Name: "c15", Stateless: true, Gen: c15Gen, Exec: c15Exec, Judge: c15Judge, OpTimeout: 20 * time.Second})
 }
